@@ -480,6 +480,28 @@ def run(prog, rep):
                               "%s opens %s in a writing mode: the source may be modified" % (f.name, target), where(f, c),
                               witness="the 1.0 source file is truncated or changed")
     rep.floor("SRC-1", n_open, 2, "open() calls in the converter")
+    # the name of the output is the name that was given, at most with '.xml' added: anything that cuts the name (splitext, rsplit, a slice) can turn
+    # `recording.v1_1` into `recording.xml` - the source
+    wt = vc.lookup_method("write_to_file")
+    fnp = wt.params[1]
+    from ..astutil import template_parts
+    for st in walk_no_nested(wt.node):
+        if isinstance(st, ast.Assign) and any(isinstance(t, ast.Name) and t.id == fnp for t in st.targets):
+            parts = template_parts(None, st.value)
+            ok_ext = parts is not None and [k for k, _ in parts].count("hole") == 1 and \
+                all((k == "hole" and isinstance(v, ast.Name) and v.id == fnp) or (k == "lit" and v in (".xml", ".odml")) for k, v in parts) \
+                and parts[0][0] == "hole"
+            rep.check(ok_ext, "SRC-1", "write_to_file: %s = %s" % (fnp, unparse(st.value)[:40]), "the given name, extended",
+                      "write_to_file re-binds the output name to `%s`, which is not the given name with an extension appended: a name with another "
+                      "extension is cut and can become the name of an existing file" % unparse(st.value)[:60], where(wt, st),
+                      witness="VersionConverter('rec.xml').write_to_file('rec.v1_1') overwrites rec.xml")
+        for c in ([st] if isinstance(st, ast.Call) else []):
+            pass
+    cutters = [c for c in calls_in(wt.node) if call_name(c).split(".")[-1] in ("splitext", "rsplit", "rpartition", "partition", "split", "with_suffix", "stem")
+               and any(isinstance(y, ast.Name) and y.id == fnp for a in c.args + ([c.func.value] if isinstance(c.func, ast.Attribute) else []) for y in ast.walk(a))]
+    rep.check(not cutters, "SRC-1", "write_to_file never shortens the output name", "ok",
+              "write_to_file applies %s to the output name" % [call_name(c) for c in cutters], where(wt, cutters[0]) if cutters else wt.where,
+              witness="VersionConverter('rec.xml').write_to_file('rec.v1_1') overwrites rec.xml")
     for f in vc.methods.values():
         for c in calls_in(f.node):
             fn = call_name(c)
